@@ -329,7 +329,7 @@ func ruleE2(scope func(pkgPath string) bool, ruleID string) func(c *core.Ctx) {
 
 func ruleE3(scope func(pkgPath string) bool, ruleID string) func(c *core.Ctx) {
 	return func(c *core.Ctx) {
-		c.Rule(ruleID, "every zerolog event chain used as a statement ends in Msg/Msgf/Send (otherwise it is a no-op: nothing logged, no panic)", 30)
+		c.Rule(ruleID, "every zerolog event chain used as a statement ends in Msg/Msgf/Send (otherwise it is a no-op: nothing logged, no panic)", 10)
 		for _, d := range c.AllDecls() {
 			p := c.DeclPkg(d)
 			if !scope(p.PkgPath) {
@@ -435,7 +435,7 @@ func hasAssignment(n ast.Node) bool {
 
 func ruleE5(scope func(pkgPath string) bool, ruleID string) func(c *core.Ctx) {
 	return func(c *core.Ctx) {
-		c.Rule(ruleID, "every error stored from a call into a local variable is read on some path before being overwritten or dropped (no dead error store / shadowed err)", 100)
+		c.Rule(ruleID, "every error stored from a call into a local variable is read on some path before being overwritten or dropped (no dead error store / shadowed err)", 50)
 		for _, d := range c.AllDecls() {
 			p := c.DeclPkg(d)
 			if !scope(p.PkgPath) {
